@@ -91,6 +91,9 @@ def uvintDecP (bs : Bytes) : Out (BitVec 64 × Bytes) :=
         -- `buf.read_uint::<BigEndian>(extra_bytes)`: asserts 1 ≤ nbytes ≤ 8, then `read_exact`
         if extra < 1 ∨ extra > 8 then .panic "read_uint(nbytes)"
         else if rest.length < extra then .err .rawCqlBytesReadError
+        -- … whose `read_exact` on `&[u8]` is that guard followed by `split_at(nbytes)` (the partial operation a
+        -- vint cut short by k < nbytes bytes would reach if the guard counted the first byte in)
+        else if extra > rest.length then .panic "split_at (read_exact)"
         else
           let x := beNat (rest.take extra)
           -- `v += …` on `u64`
